@@ -1256,7 +1256,8 @@ fn c07(ix: &Ix, f: &mut Findings) {
         }
         let cause_before = !x.started_ok() && x.start_exit.map(|s| s.0 < sp).unwrap_or(false)
             || x.kills.iter().any(|k| ix.ops[k].s < sp)
-            || x.stops.iter().any(|k| ix.ops[k].s < sp)
+            // a stop() whose future was given up before it returned has queued no marker: it is no cause
+            || x.stops.iter().any(|k| ix.ops[k].s < sp && !ix.ops[k].cancelled.map(|c| c < sp).unwrap_or(false))
             || x.run_err().map(|p| p < sp).unwrap_or(false)
             || x.first_hook_panic().map(|p| p < sp).unwrap_or(false);
         {
